@@ -100,6 +100,22 @@ CLAIMED = {
         "mapping, ArgParserAlias argument decoding, the default (tilde-abbreviated) dirs listing, with_pushd and the path-literal cd() context "
         "manager, BaseShell._fix_cwd. Assumes stack entries are absolute paths. Trusted: pyvc engine + models + z3/cvc5.",
    design="§3 C16"),
+ "C11": dict(
+   category="proof",
+   text="State = shared layer G, the running thread's override layer L, the thread's overlay stack. Env.swap is verified as a with-contract: "
+        "entry loops (capture then thread-local set, loop invariants over the processed keys), an ARBITRARY body (L and G havoced; may raise "
+        "Exception or KeyboardInterrupt), exit loop: every swapped variable is back to its previous override state (present with the same "
+        "value, or absent), assignments to other variables persist, G is exactly what the body left, the overlay stack is as before - on "
+        "normal and on exceptional exit. _capture_for_swap captures only the thread's own override; InternalEnvironDict.set_locally / "
+        "del_locally / __setitem__ and the real Env._set_item / Env._del_item in thread-local mode never touch G (including the write to a "
+        "`sync` partner; the recursion carries a termination variant); Env.__contains__ and Env.__getitem__ agree: `[]` raises KeyError "
+        "exactly when `in` is False, with the top-most overlay deciding and DELETE_VAR masking.",
+   note="Unverified: preemption between statements of swap / two threads inside _set_item on G; threading.local itself; worker threads "
+        "copying the spawner's overrides (get/set_swapped_values); iteration and detype views (C10); $UPDATE_OS_ENVIRON mirroring; swap relies "
+        "on ASSUMED stronger clauses of _set_item/_del_item (valid value, no sync partner, variable still known at exit) and on with-body "
+        "hypotheses (overlay stack discipline, no assignment of a swapped key in G, no deletion of a swapped override). One genuine defect "
+        "repaired (fix: 2d8e883). Trusted: pyvc engine + models + z3/cvc5.",
+   design="§3 C11"),
 }
 NA = {
  "C01": "equivalence of two grammars (PLY LALR tables vs CPython's PEG parser) is not a function contract; no contract within reach can express or decide it (DESIGN §3 C01)",
